@@ -841,11 +841,11 @@ def case_bookkeeping(log, nf_ref):
         sorting_msg = err is not None and "not to be sorted" in err
         if err is not None and not sorting_msg:
             v = prove_formula(E, "nf_ref=%d: ValueError(%s...) raised only on a documented inconsistent configuration" % (nf_ref, err[:40]))
-            D(v, key="compute:valueerror_spurious", replay=rp, sampler=_sampler_bk)
+            D(v, key="compute:valueerror_spurious", replay=rp, sampler=_sampler_bk, candidates=_bk_candidates(nf_ref))
             log.twin("raise path")
             return
         v = prove_formula(z3.Not(E), "nf_ref=%d: no documented inconsistency on a path that reaches the end of the quark loop (every inconsistent configuration raises)" % nf_ref)
-        D(v, key="compute:valueerror_missing", replay=rp, sampler=_sampler_bk)
+        D(v, key="compute:valueerror_missing", replay=rp, sampler=_sampler_bk, candidates=_bk_candidates(nf_ref))
         # ---- per-quark patch selection (plain model; comparisons are implied by the path condition) ----
         cur = [SR(0)] * (nf_ref - 3) + [INFs] * (6 - nf_ref)
         k_solve = 0
@@ -916,6 +916,25 @@ def case_bookkeeping(log, nf_ref):
 
     _r, pm = explore(run, max_paths=4000)
     log.path_stats(pm)
+
+
+def _bk_candidates(nf_ref):
+    """physically sensible boundary configurations: a mass reference scale exactly equal to the alpha_s reference scale, or to the mass itself"""
+    F = Fraction
+    base = {"m2_c": F(2), "q2_c": F(4), "m2_b": F(17), "q2_b": F(25), "m2_t": F(30000), "q2_t": F(29000)}
+    out = []
+    if nf_ref == 3:
+        out.append(dict(base, q2_c=F(3, 2), mu2_ref=F(3, 2), q2_b=F(16), m2_b=F(20)))  # charm given exactly at Qref from above the patch
+    if nf_ref == 4:
+        out.append(dict(base, m2_c=F(3, 2), q2_c=F(9), mu2_ref=F(9), q2_b=F(16), m2_b=F(20)))  # charm exactly at Qref
+        out.append(dict(base, m2_c=F(3, 2), q2_c=F(9), mu2_ref=F(16), q2_b=F(16), m2_b=F(20)))  # bottom exactly at Qref
+    if nf_ref == 5:
+        out.append(dict(base, q2_b=F(8281), mu2_ref=F(8281)))  # bottom exactly at Qref = M_Z^2
+        out.append(dict(base, q2_b=F(8281), mu2_ref=F(8281), q2_t=F(8281), m2_t=F(30000)))  # and top exactly at Qref
+    if nf_ref == 6:
+        out.append(dict(base, q2_t=F(40000), mu2_ref=F(40000)))  # top exactly at Qref
+    out.append(dict(base, q2_c=F(2), mu2_ref={3: F(3, 2), 4: F(9), 5: F(8281), 6: F(40000)}[nf_ref], **({"q2_t": F(40000)} if nf_ref == 6 else {})))  # charm given at its own scale
+    return out
 
 
 def _sampler_bk(rng):
